@@ -61,9 +61,33 @@ def build(rng, kind, fam, mat, extras=()):
             rb = fem.RegionQuadBoundary(mesh, mask=mask, ensure_3d=True)
             fb = fem.FieldContainer([(fem.FieldAxisymmetric if fkind == "axisymmetric" else fem.FieldPlaneStrain)(rb, dim=2)])
         items.append(fem.SolidBodyPressure(fb, pressure=float(rng.uniform(-0.2, 0.2))))
-    if "mpc" in extras and mesh.dim == 3 and kind == "3d":
-        pass
+    if "dualboundary" in extras and kind == "mixed" and len(field.fields) >= 3:
+        # a Dirichlet boundary on the third field (volume ratio): its unknowns sit behind two other fields in the global vector
+        Jf = field.fields[2]
+        mask = rng.random(Jf.values.shape[0]) < 0.3
+        mask[int(rng.integers(0, len(mask)))] = True
+        bounds = dict(bounds)
+        # in front of or behind the displacement boundaries (the order of the dictionary must not matter)
+        extra = {"swell": fem.Boundary(Jf, mask=mask, value=float(rng.uniform(1.01, 1.05)))}
+        bounds = {**bounds, **extra} if "last" in extras else {**extra, **bounds}
+        dof0, dof1 = fem.dof.partition(field, bounds)
+        lc = dict(dof0=dof0, dof1=dof1, ext0=fem.dof.apply(field, bounds, dof0))
     return field, bounds, lc, items, mesh
+
+
+def boundaries_honoured(run, x, field, bounds, label):
+    """Every boundary of the dictionary (whatever field it lives on) is carried by the returned field: judged from the
+    boundary's own declaration (field identity, its unknowns, its value), not from the ext0 vector the library built."""
+    for name, b in bounds.items():
+        idx = [b.field is f for f in field.fields].index(True)
+        got = np.asarray(x.fields[idx].values, float).ravel()[b.dof]
+        val = np.asarray(b.value, float)
+        if val.ndim > 0 and val.size != got.size:
+            run.skip("newton.boundaries", "array-valued boundary (alignment is judged by the C08 model)")
+            continue
+        run.compare("newton.boundaries", "clause=boundary-honoured field=%d" % idx, float(np.max(np.abs(got - val.ravel()))) if got.size else 0.0,
+                    1e-12 * max(1.0, float(np.max(np.abs(val)))), "the returned field does not carry the value of a boundary declared on field %d" % idx,
+                    unit="success:boundary-honoured:field%d" % idx, config=(label, "boundary-field", idx))
 
 
 def case_success(kind, fam, mat, extras, rep):
@@ -85,6 +109,7 @@ def case_success(kind, fam, mat, extras, rep):
                     return
                 raise
             run.units["success:%s" % kind] += 1
+            boundaries_honoured(run, res.x, field, bounds, kind)
             for e in extras:
                 run.units["success:with-" + e] += 1
             # continuation from the converged state
@@ -217,6 +242,8 @@ def cases(tier, seed):
             ("planestrain", "quad", "NeoHooke", ("pressure",)), ("planestrain", "triangle6", "NeoHookeCompressible", ("force",)),
             ("planestrain", "quad8", "OgdenRoxburgh", ()), ("axisymmetric", "quad", "NeoHooke", ("force",)),
             ("axisymmetric", "quad", "NeoHookeCompressible", ("pressure",)), ("mixed", "hexahedron", "-", ()), ("mixed", "quad", "-", ("force",)),
+            ("mixed", "hexahedron", "-", ("dualboundary",)), ("mixed", "quad", "-", ("dualboundary",)),
+            ("mixed", "hexahedron", "-", ("dualboundary", "last")),
             ("ni", "hexahedron", "-", ()), ("ni", "quad", "-", ("pointload",)), ("3d", "hexahedron27", "NeoHooke", ("force", "pointload"))]
     reps = 1 if tier == "quick" else 6
     for kind, fam, mat, extras in plan:
@@ -233,7 +260,8 @@ def cases(tier, seed):
 
 SPEC = {
     "required_units": ["success:3d", "success:planestrain", "success:axisymmetric", "success:mixed", "success:ni", "success:with-force",
-                       "success:with-pointload", "success:with-pressure", "success:continuation", "success:unload-to-zero", "linear:unload-one-iteration", "success:prescribed-values",
+                       "success:with-pointload", "success:with-pressure", "success:with-dualboundary", "success:boundary-honoured:field0",
+                       "success:boundary-honoured:field2", "success:continuation", "success:unload-to-zero", "linear:unload-one-iteration", "success:prescribed-values",
                        "success:reported-residual", "success:reassembly", "success:reassembly-settled", "success:fun", "success:commit",
                        "solve:reduced-system", "solve:prescribed-increment", "linear:one-iteration", "failure:maxiter",
                        "failure:no-commit", "failure:raises:ValueError"],
